@@ -22,6 +22,25 @@ enum class thread_safe
 
 auto to_string(thread_safe ts) -> const std::string&;
 
+#ifdef CAPPUCCINO_VERIF_HOOKS
+namespace verif
+{
+/**
+ * Verification only instrumentation points around the container lock.  Every pointer is null
+ * unless a test harness installs a handler, the argument is the address of the mutex object.
+ */
+struct lock_hooks
+{
+    void (*before_lock)(const void*){nullptr};
+    void (*after_lock)(const void*){nullptr};
+    void (*before_unlock)(const void*){nullptr};
+    void (*after_unlock)(const void*){nullptr};
+};
+
+inline lock_hooks g_lock_hooks{};
+} // namespace verif
+#endif
+
 /**
  * Creates a lock that based on the thread_safety will behave correctly.
  * thread_safe::yes => Uses a std::mutex
@@ -38,7 +57,19 @@ public:
     {
         if constexpr (thread_safe_type == thread_safe::yes)
         {
+#ifdef CAPPUCCINO_VERIF_HOOKS
+            if (verif::g_lock_hooks.before_lock != nullptr)
+            {
+                verif::g_lock_hooks.before_lock(this);
+            }
+#endif
             m_lock.lock();
+#ifdef CAPPUCCINO_VERIF_HOOKS
+            if (verif::g_lock_hooks.after_lock != nullptr)
+            {
+                verif::g_lock_hooks.after_lock(this);
+            }
+#endif
         }
     }
 
@@ -46,7 +77,19 @@ public:
     {
         if constexpr (thread_safe_type == thread_safe::yes)
         {
+#ifdef CAPPUCCINO_VERIF_HOOKS
+            if (verif::g_lock_hooks.before_unlock != nullptr)
+            {
+                verif::g_lock_hooks.before_unlock(this);
+            }
+#endif
             m_lock.unlock();
+#ifdef CAPPUCCINO_VERIF_HOOKS
+            if (verif::g_lock_hooks.after_unlock != nullptr)
+            {
+                verif::g_lock_hooks.after_unlock(this);
+            }
+#endif
         }
     }
 
